@@ -7,6 +7,7 @@ import (
 	"io/ioutil"
 	"os"
 	"strings"
+	"sync"
 	"sync/atomic"
 	"time"
 
@@ -75,6 +76,7 @@ func newEngineUnder(opts map[string]string, under func(storage.KvStorage) storag
 			panic(err)
 		}
 	case "tikv":
+		theAbandon = nil
 		rpcClient, cluster, pdClient, err := testutils.NewMockTiKV("", nil)
 		if err != nil {
 			panic(err)
@@ -87,7 +89,12 @@ func newEngineUnder(opts map[string]string, under func(storage.KvStorage) storag
 		}
 		testutils.BootstrapWithMultiRegions(cluster, splits...)
 		var wrap func(tikv.Client) tikv.Client
-		if rf := opts["rpcfault"]; rf != "" {
+		if rf := opts["rpcfault"]; rf == "abandon" {
+			// rpcfault=abandon: a transaction can be ABANDONED in the middle of its prewrite (ops `abandon …` of the
+			// engine suite, `abandon=1` on a write of the backend suite): see abandonClient
+			theAbandon = &abandonClient{}
+			wrap = func(c tikv.Client) tikv.Client { theAbandon.Client = c; return theAbandon }
+		} else if rf != "" {
 			// rpcfault=getabort: the next point read (kv_get) of a key containing "k01" is answered with a
 			// non-retryable key error; rpcfault=scan2: the SECOND kv_scan request fails once (a fetch error in
 			// the middle of a long scan)
@@ -158,4 +165,128 @@ func (c *rpcFaultClient) SendRequest(ctx context.Context, addr string, req *tikv
 		}
 	}
 	return c.Client.SendRequest(ctx, addr, req, timeout)
+}
+
+
+// abandonClient (rpcfault=abandon) sits between client-go and the mock TiKV cluster. When armed, the next
+// Prewrite RPC is delivered to the cluster (the locks of the transaction are placed), its answer is then held until
+// the request's own context is done - the caller of that transaction went away - and the call is reported as
+// cancelled, as gRPC does. client-go then cleans up after the abandoned transaction in the background: it sends a
+// BatchRollback for the keys, which removes the locks and leaves a ROLLBACK record (key, start ts) behind. Nothing is
+// dropped, failed or invented: every RPC reaches the cluster. The client also tells when that rollback has been
+// served.
+type abandonClient struct {
+	tikv.Client
+	mu         sync.Mutex
+	armed      bool
+	startTS    uint64 // start timestamp of the transaction whose prewrite was held
+	reached    chan struct{}
+	rolledBack chan struct{}
+	// the SLOW variant (no cancellation at all): the next Commit RPC is merely delayed until released; the locks its
+	// prewrite placed expire after TiKV's wall-clock lock ttl (3 s) and are resolved - rolled back - by whoever meets them
+	armedCommit   bool
+	commitReached chan struct{}
+	commitRelease chan struct{}
+}
+
+var theAbandon *abandonClient
+
+// armCommit: the next Commit RPC is held (not failed, not dropped) until `release` is closed
+func (c *abandonClient) armCommit() (reached, release chan struct{}) {
+	c.mu.Lock()
+	defer c.mu.Unlock()
+	c.armedCommit = true
+	c.commitReached, c.commitRelease = make(chan struct{}), make(chan struct{})
+	return c.commitReached, c.commitRelease
+}
+
+// arm: the next prewrite is the abandoned one; returns the channels closed when the prewrite has reached the
+// cluster and when the rollback of that transaction has been served
+func (c *abandonClient) arm() (reached, rolledBack chan struct{}) {
+	c.mu.Lock()
+	defer c.mu.Unlock()
+	c.armed, c.startTS = true, 0
+	c.reached, c.rolledBack = make(chan struct{}), make(chan struct{})
+	return c.reached, c.rolledBack
+}
+
+func (c *abandonClient) disarm() {
+	c.mu.Lock()
+	c.armed = false
+	c.mu.Unlock()
+}
+
+func (c *abandonClient) SendRequest(ctx context.Context, addr string, req *tikvrpc.Request, timeout time.Duration) (*tikvrpc.Response, error) {
+	if req.Type == tikvrpc.CmdPrewrite {
+		c.mu.Lock()
+		hold := c.armed
+		if hold {
+			c.armed = false
+			c.startTS = req.Prewrite().StartVersion
+		}
+		reached := c.reached
+		c.mu.Unlock()
+		if hold {
+			_, _ = c.Client.SendRequest(ctx, addr, req, timeout) // the prewrite is executed by the cluster
+			close(reached)
+			<-ctx.Done()
+			return nil, ctx.Err()
+		}
+	}
+	if req.Type == tikvrpc.CmdCommit {
+		c.mu.Lock()
+		hold := c.armedCommit
+		c.armedCommit = false
+		reached, release := c.commitReached, c.commitRelease
+		c.mu.Unlock()
+		if hold {
+			close(reached)
+			<-release
+		}
+	}
+	resp, err := c.Client.SendRequest(ctx, addr, req, timeout)
+	if req.Type == tikvrpc.CmdBatchRollback {
+		c.mu.Lock()
+		if c.startTS != 0 && req.BatchRollback().StartVersion == c.startTS {
+			c.startTS = 0
+			close(c.rolledBack)
+		}
+		c.mu.Unlock()
+	}
+	return resp, err
+}
+
+// abandonRun runs `f` (a commit / a backend request) as the abandoned client: its context is cancelled as soon as
+// its prewrite has reached the cluster; it waits for f's answer and for the rollback client-go sends afterwards.
+// A request that never gets as far as a prewrite (its condition failed, a refusal) just returns its answer.
+func abandonRun(f func(ctx context.Context) string) string {
+	if theAbandon == nil {
+		return "abandon no-rpcfault"
+	}
+	reached, rolledBack := theAbandon.arm()
+	defer theAbandon.disarm()
+	ctx, cancel := context.WithCancel(context.Background())
+	defer cancel()
+	done := make(chan string, 1)
+	go func() { done <- f(ctx) }()
+	select {
+	case line := <-done:
+		return line // no prewrite was sent
+	case <-reached:
+	case <-time.After(20 * time.Second):
+		return "abandon stuck-before-prewrite"
+	}
+	cancel() // the caller of the transaction goes away
+	var line string
+	select {
+	case line = <-done:
+	case <-time.After(20 * time.Second):
+		return "abandon stuck-after-cancel"
+	}
+	select {
+	case <-rolledBack:
+	case <-time.After(20 * time.Second):
+		return line + " norollback"
+	}
+	return line
 }
